@@ -181,11 +181,17 @@ def parse_instr(p):
         while p.peek()[1] in FMF: p.next()
         ins.c=p.tv(); p.expect(','); ins.a=p.tv(); p.expect(','); ins.b=p.tv()
     elif op=='load':
-        p.accept('volatile'); ins.ty=p.ty(); p.expect(','); ins.ptr=p.tv(); ins.align=None
+        ins.atomic=bool(p.accept('atomic')); p.accept('volatile'); ins.ty=p.ty(); p.expect(','); ins.ptr=p.tv(); ins.align=None
+        if p.peek()[1]=='syncscope':
+            p.next(); p.expect('('); p.next(); p.expect(')')
+        while p.peek()[1] in('unordered','monotonic','acquire','release','acq_rel','seq_cst'): p.next()
         if p.accept(','):
             if p.accept('align'): ins.align=int(p.next()[1])
     elif op=='store':
-        p.accept('volatile'); ins.v=p.tv(); p.expect(','); ins.ptr=p.tv(); ins.align=None
+        ins.atomic=bool(p.accept('atomic')); p.accept('volatile'); ins.v=p.tv(); p.expect(','); ins.ptr=p.tv(); ins.align=None
+        if p.peek()[1]=='syncscope':
+            p.next(); p.expect('('); p.next(); p.expect(')')
+        while p.peek()[1] in('unordered','monotonic','acquire','release','acq_rel','seq_cst'): p.next()
         if p.accept(','):
             if p.accept('align'): ins.align=int(p.next()[1])
     elif op=='alloca':
